@@ -1,4 +1,5 @@
 import GwModel.Trans.Local
+import GwModel.PlanTerm
 import GwModel.Select
 import GwModel.ExecFacts
 import GwModel.Gen.Facts
@@ -69,5 +70,22 @@ example :
 
 /-- non-vacuity: a routing that keeps everything local, on the smoke-test query -/
 example : (Tr.splitSels { choose := fun _ _ L => L, ftype := fun _ _ => 0 } 0 0 Tr.qT).2 = [] := by decide
+
+/-- **no client field is asked for twice** (planner model `Pl`, documents without named fragments): over all steps of
+    the plan the client's fields the steps ask their services for, counted with multiplicity, are at most the fields
+    of the client's document (`Pl.cfcL` counts the client's fields; the `id` the planner adds is not one).  With
+    `Props.C01.no_requested_field_is_lost_by_planning` every requested field is asked for exactly once. -/
+theorem no_client_field_is_asked_for_twice {env : Pl.Env} {fuel : Nat} {operation : String} {sels : List Pl.Sel}
+    {steps : List Pl.Step} (hns : Pl.noSpreadL sels = true) (h : Pl.planOperation env fuel operation sels = .ok steps) :
+    Pl.asked steps ≤ Pl.cfcL sels := Pl.planOperation_no_field_twice hns h
+
+/-- non-vacuity: `{ me { firstName lastName } }` with `lastName` elsewhere: three client fields, three asked for -/
+def exEnv2 : Pl.Env :=
+  { routes := [("Query.me", ["A"]), ("User.firstName", ["A"]), ("User.lastName", ["B"]), ("User.id", ["A", "B"])],
+    configured := [], internal := "gw", planFrags := [] }
+def exSels2 : List Pl.Sel :=
+  [.field "me" "me" "" [] [] "User" [.field "firstName" "firstName" "" [] [] "String" [],
+                                      .field "lastName" "lastName" "" [] [] "String" []]]
+example : (Pl.planOperation exEnv2 10 "query" exSels2).toOption.map Pl.asked = some 3 ∧ Pl.cfcL exSels2 = 3 := by decide
 
 end Props.C13
